@@ -554,21 +554,26 @@ pub fn h_run(c: &HCase) -> Outcome {
     }
     let text = v.to_string();
     let mut obs = Obs::default();
-    let what = format!("mutated JSON {text}");
+    judge_json(&text, c.target, &mut obs)?;
+    Ok(obs)
+}
+
+/// Shared with the libFuzzer target: read `text` as JSON into one of six graph types and judge the outcome.
+pub fn judge_json(text: &str, target: u8, obs: &mut Obs) -> Result<(), Failure> {
+    let what = format!("JSON input {}", &text[..text.len().min(600)]);
     macro_rules! js {
         ($t:ty) => {
-            guarded(|| serde_json::from_str::<$t>(&text).map_err(|e| e.to_string()))
+            guarded(|| serde_json::from_str::<$t>(text).map_err(|e| e.to_string()))
         };
     }
-    match c.target % 6 {
-        0 => judge_stable(js!(StableGraph<W, W, Directed, u8>), &what, &mut obs)?,
-        1 => judge_graph(js!(Graph<W, W, Directed, u8>), &what, &mut obs)?,
-        2 => judge_stable(js!(StableGraph<W, W, Directed, u32>), &what, &mut obs)?,
-        3 => judge_graph(js!(Graph<W, W, Directed, u16>), &what, &mut obs)?,
-        4 => judge_stable(js!(StableGraph<W, W, Undirected, u16>), &what, &mut obs)?,
-        _ => judge_graph(js!(Graph<W, W, Undirected, u32>), &what, &mut obs)?,
+    match target % 6 {
+        0 => judge_stable(js!(StableGraph<W, W, Directed, u8>), &what, obs),
+        1 => judge_graph(js!(Graph<W, W, Directed, u8>), &what, obs),
+        2 => judge_stable(js!(StableGraph<W, W, Directed, u32>), &what, obs),
+        3 => judge_graph(js!(Graph<W, W, Directed, u16>), &what, obs),
+        4 => judge_stable(js!(StableGraph<W, W, Undirected, u16>), &what, obs),
+        _ => judge_graph(js!(Graph<W, W, Undirected, u32>), &what, obs),
     }
-    Ok(obs)
 }
 
 // ------------------------------------------------------------------ byte-level mutations of bincode streams
